@@ -872,6 +872,8 @@ def titleparts_fn(
         num_return = num_parts
     elif num_return < 0:
         num_return = max(0, num_parts + num_return)
+        if num_return == 0:
+            return ""  # all segments dropped from the end
     parts = parts[2 * first : 2 * (first + num_return) - 1]
     return "".join(parts)
 
